@@ -4,6 +4,7 @@ import (
 	"bytes"
 	"context"
 	"fmt"
+	"io"
 	"net/http"
 	"os"
 	"strings"
@@ -151,7 +152,25 @@ func c15Worlds() []c15World {
 	r6 := mk("multi-2", wire.ConnectUnary, "Multi", "proto", "", restEcho, nil, MkMsg(`{"name":"z"}`))
 	r7 := mk("nested", wire.GRPCWeb, "Nested", "json", "", echo(`{"child":{"name":"resp-child"}}`), nil, MkMsg(`{"child":{"name":"nn"},"tags":["t"]}`))
 	r8 := mk("rest-bad-var", wire.GRPCWeb, "Scalar", "json", "", restEcho, nil, MkMsg(`{"child":{"child":{"name":"not-matching"}},"num":4}`))
-	w2.history = []c15Req{r1, r2, r3, r4, r5, r6, r7, r8}
+	// a backend that answers before it has read the request (legal: the response does not
+	// depend on the body) and only then drains it - for a request that turns out broken
+	earlyAnswer := func(name string, form wire.Form, method, codec, comp string, mut func(*drive.ReqSpec), m protoMessage) c15Req {
+		q := mk(name, form, method, codec, comp, nil, mut, m)
+		q.raw = func(b *world.Backend, w http.ResponseWriter, r *http.Request) {
+			w.Header().Set("Content-Type", "application/json")
+			w.WriteHeader(200)
+			_, _ = w.Write([]byte(`{"name":"answered-early","extraText":"` + strings.Repeat("e", 300) + `"}`))
+			if f, ok := w.(http.Flusher); ok {
+				f.Flush()
+			}
+			_, _ = io.Copy(io.Discard, r.Body)
+		}
+		return q
+	}
+	r9 := earlyAnswer("early-answer-then-corrupt-gzip", wire.ConnectUnary, "Unary", "proto", "gzip", flip(12), big)
+	r10 := earlyAnswer("early-answer-then-cut-body", wire.GRPCWeb, "Unary", "proto", "", cut(9), big)
+	r11 := earlyAnswer("early-answer-clean", wire.ConnectUnary, "Unary", "proto", "gzip", nil, big)
+	w2.history = []c15Req{r1, r2, r3, r4, r5, r6, r7, r8, r9, r10, r11}
 	w2.probes = []c15Req{r1, r2, r3, r5, r7}
 	// world 3: gRPC-Web target reached by re-framing only (same codec): the end of the
 	// response is a frame in the body that the transcoder has to buffer and decode
@@ -221,7 +240,34 @@ func c15Worlds() []c15World {
 	a3 := mk("plain-connect-json", wire.ConnectUnary, "Unary", "json", "", echo(`{"name":"r3"}`), nil, small)
 	w4.history = []c15Req{libReq("library-connect-json", wire.ConnectUnary, "json"), libReq("library-grpcweb-json", wire.GRPCWeb, "json"), a1, a2, a3}
 	w4.probes = []c15Req{a1, a2, a3, libReq("library-connect-json", wire.ConnectUnary, "json")}
-	return []c15World{w1, w2, w3, w4}
+	// world 5: a flat (Connect unary) target with another codec than the client's: the response
+	// is buffered for flat clients, and a backend may answer before it has read the request
+	w5 := c15World{name: "target=Connect/proto/no compression (flat, re-encoding)", cfg: world.Config{Protocols: []vanguard.Protocol{vanguard.ProtocolConnect}, Codecs: []string{"proto"}, NoCompress: true, MaxMsg: 8000}}
+	early := func(name string, form wire.Form, codec, comp string, mut func(*drive.ReqSpec)) c15Req {
+		q := mk(name, form, "Unary", codec, comp, nil, mut, big)
+		q.raw = func(b *world.Backend, w http.ResponseWriter, r *http.Request) {
+			w.Header().Set("Content-Type", "application/proto")
+			w.WriteHeader(200)
+			_, _ = w.Write(Enc("proto", MkMsg(`{"name":"answered-early","extraText":"`+strings.Repeat("e", 300)+`"}`)))
+			if f, ok := w.(http.Flusher); ok {
+				f.Flush()
+			}
+			_, _ = io.Copy(io.Discard, r.Body)
+		}
+		return q
+	}
+	f1 := mk("cunary-json-gzip", wire.ConnectUnary, "Unary", "json", "gzip", echo(`{"name":"f1","extraText":"`+strings.Repeat("f", 200)+`"}`), nil, big)
+	f2 := mk("web-json", wire.GRPCWeb, "Unary", "json", "", echo(`{"name":"f2"}`), nil, small)
+	f3 := mk("cget-json-gzip", wire.ConnectGet, "Pure", "json", "gzip", echo(`{"name":"f3"}`), nil, small)
+	w5.history = []c15Req{f1, f2, f3,
+		early("early-answer-then-corrupt-gzip", wire.ConnectUnary, "json", "gzip", flip(12)),
+		early("early-answer-then-cut-body", wire.ConnectUnary, "json", "", cut(9)),
+		early("early-answer-then-undecodable", wire.ConnectUnary, "json", "", func(s *drive.ReqSpec) { s.Body.Data = []byte(`{"name":`) }),
+		early("early-answer-clean", wire.ConnectUnary, "json", "gzip", nil),
+		early("early-answer-web-corrupt-gzip", wire.GRPCWeb, "json", "gzip", flip(20)),
+	}
+	w5.probes = []c15Req{f1, f2, f3}
+	return []c15World{w1, w2, w3, w4, w5}
 }
 
 type protoMessage = proto.Message
@@ -293,8 +339,13 @@ func c15Run(w c15World, history []int, probe int) (outcome string, poolKey strin
 		kb.WriteString("]")
 	}
 	outcome = exec(&w.probes[probe])
+	writesAfterPut := 0
 	for _, p := range verifsync.Pools() {
 		doublePuts += p.Stats().DoublePuts
+		writesAfterPut += p.Stats().WritesAfterPut + p.AuditPoison()
+	}
+	if writesAfterPut > 0 {
+		outcome += fmt.Sprintf(" || WRITE-AFTER-PUT x%d", writesAfterPut)
 	}
 	return outcome, kb.String(), doublePuts / 2, problem
 }
@@ -304,7 +355,7 @@ func init() {
 		ID:    "C15",
 		Level: "model_checking",
 		Rule: "Explicit-state search over request histories on one Transcoder (deterministic maximal-reuse pool through the verifsync shim): world 1 (gRPC/proto/gzip target): alphabet of 21 requests (6 clean RPCs covering re-framing, re-encoding and compression on both legs incl. a 5 kB message that grows pooled buffers; validation failures, cuts inside envelope / payload / flat body, over-limit, four kinds of corrupt gzip, undecodable message, corrupt gzip response, early return, backend panic before/after its first write) and 6 probes; " +
-			"world 2 (REST target): 8 requests over shared route targets and 5 probes; world 3 (gRPC-Web target reached by re-framing): 10 requests incl. five malformed trailer / message frames from the backend, 4 probes; world 4 (a generated and a dynamic service with different type resolvers on one Transcoder): 5 requests incl. google.protobuf.Any of a dynamically known type, 4 probes. Every history of depth <= 3 (quick) / <= 4 (thorough) is replayed on a fresh Transcoder followed by each probe; the probe's semantic outcome (client and backend side) must equal its outcome on a fresh Transcoder; no pool element may be Put twice; poison must not reach outputs. " +
+			"world 2 (REST target): 11 requests (incl. a backend that answers before reading a request that turns out broken) over shared route targets and 5 probes; world 3 (gRPC-Web target reached by re-framing): 10 requests incl. five malformed trailer / message frames from the backend, 4 probes; world 5 (flat Connect target with another codec; backends that answer before reading a request that turns out broken; a GET with declared compression): 8 requests, 3 probes; world 4 (a generated and a dynamic service with different type resolvers on one Transcoder): 5 requests incl. google.protobuf.Any of a dynamically known type, 4 probes. Every history of depth <= 3 (quick) / <= 4 (thorough) is replayed on a fresh Transcoder followed by each probe; the probe's semantic outcome (client and backend side) must equal its outcome on a fresh Transcoder; no pool element may be Put twice; poison must not reach outputs. " +
 			"A state is a history (no merging); a transition is one replayed request. Non-trivial = distinct pool-state key (multiset of pooled buffer capacities and pooled codec objects) reached before a probe.",
 		Assume:  []string{"the deterministic LIFO pool of the shim is the maximal-reuse behaviour the real sync.Pool may exhibit", "every explored trace is an execution of the implementation itself (no separate model)"},
 		Custom:  c15Custom,
@@ -332,7 +383,7 @@ func c15Custom(rc *RunCtx, rep *Report) {
 				rep.Broken = append(rep.Broken, problem)
 				return
 			}
-			if dp > 0 || strings.Contains(out, "POISON") || strings.Contains(out, "PANIC") {
+			if dp > 0 || strings.Contains(out, "POISON") || strings.Contains(out, "PANIC") || strings.Contains(out, "WRITE-AFTER-PUT") {
 				rep.Violations = append(rep.Violations, Found{Scenario: "custom", V: xplorViolation("C15.fresh-run-anomaly", "probe "+w.probes[p].name+" on a fresh Transcoder: "+short(out), map[string]string{"world": w.name, "probe": w.probes[p].name}, nil, nil)})
 			}
 			base[p] = out
